@@ -38,6 +38,11 @@ def _templates():
     T[("vec", "cumsum")] = (lambda v: jnp.cumsum(v, axis=1), [((None, 3), i32)])
     T[("vec", "cumsum_rev")] = (lambda v: lax.cumsum(v, axis=1, reverse=True), [((None, 3), i32)])
     T[("vec", "sort")] = (lambda v: jnp.sort(v, axis=1), [((None, 3), i32)])
+    for lc in (0, 1):
+        for rc in (0, 1):
+            # one 2-D dot_general per case (the 2-D Gemm/MatMul path is the one with transposition flags)
+            T[("dot", lc, rc)] = ((lambda a, b, lc=lc, rc=rc: lax.dot_general(a, b, (((lc,), (rc,)), ((), ())))), [((2, 2), f32), ((2, 2), f32)])
+            T[("dot_i", lc, rc)] = ((lambda a, b, lc=lc, rc=rc: jnp.tensordot(a, b, axes=((lc,), (rc,)))), [((2, 2), i32), ((2, 2), i32)])
     return T
 
 
@@ -63,11 +68,16 @@ def run_cases(cases: list[dict[str, Any]]) -> dict[str, Any]:
             key = ("clamp", 0)
         elif c["k"] == "onehot":
             key = ("onehot", 0)
+        elif c["k"] == "dot":
+            key = ("dot", c["lc"], c["rc"])
         else:
             key = ("vec", c["op"])
         groups.setdefault(key, []).append(rec)
     out: dict[str, Any] = {"n": 0, "mismatch": [], "spec_vs_jax": [], "export_failed": []}
     for key, recs in groups.items():
+        if key[0] == "dot":
+            _run_dot(key, recs, T, out)
+            continue
         fn, specs = T[key]
         N = len(recs)
         if key[0] == "unary":
@@ -108,3 +118,41 @@ def run_cases(cases: list[dict[str, Any]]) -> dict[str, Any]:
             if g.shape != j.shape or not np.array_equal(g.astype(np.float64), j.astype(np.float64)) or (np.signbit(g) != np.signbit(j)).any() and g.dtype.kind == "f" and False:
                 out["mismatch"].append({"case": recs[i]["c"], "template": str(key), "ort": g.tolist(), "jax": j.tolist(), "spec": e.tolist()})
     return out
+
+
+def _run_dot(key, recs, T, out) -> None:
+    """2x2 dot_general: one export per (lc, rc) and dtype path, one ORT run per (A, B) pair."""
+    import jax
+    import jax.numpy as jnp
+
+    import jax2onnx
+    from harness import onnxutil as U
+
+    for tk, dt in ((key, np.float32), (("dot_i",) + tuple(key[1:]), np.int32)):
+        fn, specs = T[tk]
+        try:
+            m = jax2onnx.to_onnx(fn, [jax.ShapeDtypeStruct(shp, d) for shp, d in specs])
+            names = [i.name for i in m.graph.input]
+            try:
+                sess = U.ort_session(m)
+            except Exception as ex:  # noqa: BLE001
+                if "NOT_IMPLEMENTED" not in str(ex):
+                    raise
+                # ORT has no integer Gemm kernel (a runtime limit): execute with the ONNX reference evaluator
+                from onnx.reference import ReferenceEvaluator
+
+                sess = ReferenceEvaluator(m)
+                out["runtime_limit_reference_evaluator"] = out.get("runtime_limit_reference_evaluator", 0) + 1
+        except Exception as ex:  # noqa: BLE001
+            out["export_failed"].append({"template": str(tk), "error": f"{type(ex).__name__}: {str(ex)[:200]}"})
+            continue
+        for r in recs:
+            A, B = np.array(r["c"]["A"], dt), np.array(r["c"]["B"], dt)
+            e = np.array(r["r"], np.float64)
+            g = np.asarray(sess.run(None, dict(zip(names, [A, B])))[0], np.float64)
+            j = np.asarray(fn(jnp.asarray(A), jnp.asarray(B)), np.float64)
+            out["n"] += 1
+            if not np.array_equal(e, j):
+                out["spec_vs_jax"].append({"case": r["c"], "spec": e.tolist(), "jax": j.tolist()})
+            if g.shape != j.shape or not np.array_equal(g, j):
+                out["mismatch"].append({"case": r["c"], "template": str(tk), "ort": g.tolist(), "jax": j.tolist(), "spec": e.tolist()})
